@@ -1444,6 +1444,16 @@ class QueryBuilder(Selectable, Term):  # type:ignore[misc]
                 return False
         return True
 
+    def _references_foreign_table(self) -> bool:
+        """
+        True if WHERE / PREWHERE refer to a table that is not one of the statement's sources. Decided when the
+        statement is rendered, from its final sources: where() may be called before from_() or join().
+        """
+        return any(
+            criterion is not None and not self._validate_table(criterion)
+            for criterion in (self._wheres, self._prewheres)
+        )
+
     def _tag_subquery(self, subquery: Self) -> None:
         subquery.alias = "sq%d" % self._subquery_count
         self._subquery_count += 1
@@ -1494,7 +1504,7 @@ class QueryBuilder(Selectable, Term):  # type:ignore[misc]
         has_joins = bool(self._joins)
         has_multiple_from_clauses = 1 < len(self._from)
         has_subquery_from_clause = 0 < len(self._from) and isinstance(self._from[0], QueryBuilder)
-        has_reference_to_foreign_table = self._foreign_table
+        has_reference_to_foreign_table = self._references_foreign_table()
         has_update_from = self._update_table and self._from
 
         # The embedding position only decides how the finished query is wrapped (parentheses, alias).
